@@ -64,7 +64,7 @@ SEEDS_THOROUGH = SEEDS_QUICK + ['C1CC1C', 'C1CCC1']
 # medium seeds (5-10 atoms, Kekule forms only: hydrogens of aromatic atoms are not derivable from atoms and bonds): rings with ambiguous bases, stereo of every kind, zwitterion, metal
 SEEDS_MEDIUM = ['smi:C1=CC=CC=C1', 'smi:C[C@H](N)C(=O)O', 'smi:C/C=C/C=C\\C', 'smi:C1CC2CCC1C2', 'smi:C[N+](C)(C)CC([O-])=O', 'smi:C1CCC2(CC1)OCCO2', 'smi:O=C1C=CC(=O)C=C1',
                 'smi:C[C@H]1CC[C@@H](O)CC1', 'smi:CC=[C@]=CC', 'smi:C#CC[N+]#[C-]', 'smi:C[Mg]Br', 'smi:C1CC1C1CC1', 'smi:N1C=CC=C1', 'smi:C[C@@]12CCC[C@H]1C2', 'smi:OO.[Na+].[Cl-]', 'smi:C1CCO[C@H]1C', 'smi:N1CCC[C@H]1C(=O)O']
-SEEDS_MEDIUM_QUICK = SEEDS_MEDIUM[:5] + ['smi:C1CCO[C@H]1C', 'smi:C1CC1C1CC1']
+SEEDS_MEDIUM_QUICK = SEEDS_MEDIUM[:5] + ['smi:C1CCO[C@H]1C', 'smi:C1CC1C1CC1', 'smi:CC=[C@]=CC']
 
 
 # ----------------------------------------------------------------------------- raw snapshot, rebuild, readers
@@ -570,6 +570,10 @@ def transition(seedname, hist, e, pat, parent_kh, i4depth=None):
     r = judge_state(m2, patvals)
     if r:
         return None, r, None
+    if m2 is src and expect == 'changed' and e[0] not in NO_I6 and (any(a[5] is not None for a in pre_raw[0]) or any(st is not None for _, ks in pre_raw[1] for _, _, st in ks)):
+        r = label_persistence(replay_history(seedname, hist), m2)
+        if r:
+            return None, r + ' (%s)' % e[0], None
     if expect == 'unchanged' and pre_full is not None:
         now = read(m2, pattern_names('ALL'))
         d = diff(now, pre_full)
@@ -614,6 +618,84 @@ def same_configuration(src, new):
             continue
         if d2[key] != sign:
             return 'I5 configuration of a retained centre differs between the source and the new object'
+    return None
+
+
+def _wl_colours(m):
+    """stable colour refinement on atoms (element, isotope, charge, radical, hydrogens; bond orders): different colours => constitutionally different atoms"""
+    col = {n: hash((a.atomic_number, a.isotope, a.charge, a.is_radical, a.implicit_hydrogens)) for n, a in m._atoms.items()}
+    for _ in range(len(col)):
+        new = {n: hash((col[n], tuple(sorted((b.order, col[k]) for k, b in m._bonds[n].items())))) for n in col}
+        if len(set(new.values())) == len(set(col.values())):
+            break
+        col = new
+    return col
+
+
+NO_I6 = ('remap', 'clean_stereo', 'atom_stereo', 'copy', 'substructure', 'union', 'union2', 'tx_fail', 'bad', 'iunion')
+
+
+def label_persistence(pre, post):
+    """I6: an in-place edit that leaves a labelled stereo element and all its substituent atoms exactly as they were, and after which the element is
+    still stereogenic for a reason that needs no library code (carbon ends, substituents of each end constitutionally different by colour refinement),
+    keeps the label and its sign"""
+    from .c02 import stereo_descr
+    try:
+        d1 = stereo_descr(pre)
+    except Exception:
+        return None
+    if not d1:
+        return None
+    try:
+        d2 = stereo_descr(post)
+    except Exception as e:
+        return 'I6 configuration descriptor raised %s after the edit' % type(e).__name__
+    col = _wl_colours(post)
+    paths = {}
+    for path in pre.stereogenic_cumulenes:
+        paths[path[len(path) // 2] if len(path) % 2 else (min(path[0], path[-1]), max(path[0], path[-1]))] = path
+
+    def same_atom(x):
+        a, b = pre._atoms[x], post._atoms.get(x)
+        return b is not None and (a.atomic_number, a.isotope, a.charge, a.is_radical, a.implicit_hydrogens) == (b.atomic_number, b.isotope, b.charge, b.is_radical, b.implicit_hydrogens)
+
+    def same_nbrs(x):
+        return x in post._bonds and {k: b.order for k, b in pre._bonds[x].items()} == {k: b.order for k, b in post._bonds[x].items()}
+    for key, sign in d1.items():
+        if key[0] == 't':
+            core = [key[1]]
+            ends = [(key[1], list(pre._bonds[key[1]]))]
+        elif key[0] == 'a':
+            core = list(paths.get(key[1], ()))
+            ends = [(core[0], [x for x in pre._bonds[core[0]] if x != core[1]]), (core[-1], [x for x in pre._bonds[core[-1]] if x != core[-2]])] if core else []
+        elif key[0] == 'ct':
+            core = list(paths.get((key[1], key[2]), ()))
+            ends = [(core[0], [x for x in pre._bonds[core[0]] if x != core[1]]), (core[-1], [x for x in pre._bonds[core[-1]] if x != core[-2]])] if core else []
+        else:
+            continue
+        if not core:
+            continue
+        env = [x for _, subs in ends for x in subs]
+        if not all(same_atom(x) for x in core + env) or not all(same_nbrs(x) for x in core):
+            continue
+        ok = True
+        for c, subs in ends:
+            a = post._atoms[c]
+            if a.atomic_number != 6 or a.charge or a.is_radical:
+                ok = False
+            want = 4 if key[0] == 't' else 2
+            if len(subs) + (a.implicit_hydrogens or 0) != want or (a.implicit_hydrogens or 0) > 1:
+                ok = False
+            if len({col[x] for x in subs}) != len(subs):
+                ok = False
+            if any(post._atoms[x].atomic_number == 1 for x in subs) and (a.implicit_hydrogens or 0):
+                ok = False
+        if not ok:
+            continue
+        if key not in d2:
+            return 'I6 stereo label of an untouched, still stereogenic %s lost by the edit' % {'t': 'tetrahedral centre', 'a': 'allene', 'ct': 'double bond'}[key[0]]
+        if d2[key] != sign:
+            return 'I6 configuration of an untouched stereo element changed by the edit'
     return None
 
 
@@ -744,6 +826,11 @@ def bfs(pmap, seeds, depth, devbound, maxa, maxdec, label, patterns=None):
     for s in seeds:
         m = replay_history(s, ())
         r = judge_state(m, None)
+        if not r and s.startswith('smi:'):
+            # I0: the rebuilt molecule (public constructor path + labels + fix_stereo) carries the labels of the molecule it was rebuilt from
+            from chython import smiles as _smiles
+            if raw(_smiles(s[4:])) != raw(m) and sorted(x[5] is not None for x in raw(_smiles(s[4:]))[0]) != sorted(x[5] is not None for x in raw(m)[0]):
+                r = 'I0 rebuilding the molecule from its atoms, bonds and labels drops or adds a stereo label'
         if r:
             acc.fail('seed %s: %s' % (s, r), seed=s, history=[], event=None, pattern='ALL', reason=r)
             continue
@@ -812,7 +899,7 @@ def plan(tier, seed):
                 Stage('medium seeds: every pair of events', stage_medium2, None, 'all histories of 2 events on the 15 medium seeds, all caches read after every event')]
     return [Stage('BFS default reads depth 3', stage_default, None, 'all histories <=3 events, <=4 atoms, <=1 decorated atom, all caches read after every event'),
             Stage('BFS <=1 read deviation depth 2', stage_dev1, None, 'all histories <=2 events, <=4 atoms, with <=1 non-default read pattern (none/exactly-one-of-9)'),
-            Stage('medium seeds: every event, <=1 read deviation', stage_medium1, None, 'every enabled event at every position of 5 molecules of 6-8 atoms (Kekule ring, stereocentre, diene, bicycle, zwitterion) x read patterns all / none / str only')]
+            Stage('medium seeds: every event, <=1 read deviation', stage_medium1, None, 'every enabled event at every position of %d molecules of 5-8 atoms (Kekule ring, stereocentre, diene, bicycle, zwitterion, ring stereocentre, two rings, allene) x read patterns all / none / str only; labels of untouched, still stereogenic elements persist (I6)' % len(SEEDS_MEDIUM_QUICK))]
 
 
 def replay(rec):
@@ -820,6 +907,10 @@ def replay(rec):
     if rec.get('event') is None:
         m = replay_history(rec['seed'], ())
         r = judge_state(m, None)
+        if not r and rec['seed'].startswith('smi:'):
+            from chython import smiles as _smiles
+            if sorted(x[5] is not None for x in raw(_smiles(rec['seed'][4:]))[0]) != sorted(x[5] is not None for x in raw(m)[0]):
+                r = 'I0'
         return [{'key': rec['key'], 'reason': r}] if r else []
     kh, reason, _ = transition(rec['seed'], hist, _t(rec['event']), rec['pattern'], None, 2)
     return [{'key': rec['key'], 'reason': reason}] if reason else []
